@@ -91,9 +91,9 @@ Proof.
   intros Hc Hr c r Hc' Hr'. cbv zeta. split; [|split; [|reflexivity]].
   - rewrite abs_cell_at, cell_at_upd_cell by assumption.
     destruct ((c =? col) && (r =? rw)).
-    + rewrite cell_at_prepare by assumption. destruct (cell_at sh col rw); [reflexivity|].
+    + rewrite cell_at_prepare by lia. destruct (cell_at sh col rw); [reflexivity|].
       now rewrite Z.eqb_refl, Z.leb_refl.
-    + rewrite <- abs_cell_at. now apply abs_prepare.
+    + rewrite <- abs_cell_at. apply abs_prepare; lia.
   - now rewrite row_style_upd_cell, row_style_prepare.
 Qed.
 
@@ -148,7 +148,7 @@ Proof.
     now rewrite pcs_nonzero.
   - (* row style *)
     split; [|split; [reflexivity|exact Hm]].
-    intros c r Hc' Hr'. unfold set_row_style. set (sh1 := prepare_sheet_xml 1 rw sh).
+    intros c r Hc' Hr'. unfold set_row_style. set (sh1 := prepare_sheet_xml 0 rw sh).
     match goal with |- W ?x c r = _ => set (sh2 := x) end.
     unfold W, wstep, wstep_at.
     assert (Hrow : exists r1, nth_error (rows sh1) (Z.to_nat (rw - 1)) = Some r1).
@@ -172,7 +172,7 @@ Proof.
     destruct (Z.eqb_spec r rw) as [E|N]; [|reflexivity]. subst r.
     assert (Hcont : content_of (match cell_at sh1 c rw with Some c0 => (c_t c0, c_v c0, c_f c0, s) | None => empty_obs end)
                     = content_of (abs sh c rw)).
-    { rewrite <- (abs_prepare 1 rw sh c rw) by lia. fold sh1. rewrite abs_cell_at.
+    { rewrite <- (abs_prepare 0 rw sh c rw) by lia. fold sh1. rewrite abs_cell_at.
       destruct (cell_at sh1 c rw); reflexivity. }
     rewrite Hcont. cbn [fst snd]. f_equal.
     destruct (cell_at sh1 c rw); cbn [style_of empty_obs].
